@@ -46,6 +46,10 @@ def run(rep, ctx):
     with rep.guard("C14.key-provenance"):
         key_provenance(rep, ctx.model, "C14.key-provenance")
     rep.floor("C14.key-provenance", 5)
+    rep.rule("C14.apply", "the tabulated transformation is applied as x' = R x + t to the standardised positions (so the tabulated letter permutation is the one that happens)")
+    with rep.guard("C14.apply"):
+        from . import c05 as _c05
+        _c05.r05_3(rep, ctx.model, "C14.apply")
     rep.rule("C14.getters", "the label getters, constant-folded over the 230 table values, report the reference crystal system / Bravais lattice / point group")
     with rep.guard("C14.getters"):
         getter_semantics(rep, ctx.model, T, "C14.getters")
